@@ -248,3 +248,50 @@ class Dispatch:
             return (result is not None and wf_response_obj(doc) and member(doc, 'id') is None
                     and code_of(doc) == -32700 and tlen() == old(tlen()))
         return True
+
+
+# ------------------------------------------------------------------------------------------------ C12: the middleware chain
+from spec.prims import define, is_partial, partial_args, partial_func, partial_kwargs
+
+
+def wraps(d, p, j):
+    """p is exactly functools.partial(d._middlewares[j], handler=h) for a chain h from position j + 1"""
+    if not is_partial(p):
+        return False
+    kw = partial_kwargs(p)
+    return (same(partial_func(p), d._middlewares[j]) and len(partial_args(p)) == 0 and len(kw) == 1
+            and uf('is_chain', d, member(kw, 'handler'), j + 1))
+
+
+def chain_def(d, p, j):
+    """DEFINITION of the uninterpreted is_chain(d, h, j) - "h is the handler chain made of the middlewares from position j
+    on, in declared order, around the innermost handler" - instantiated where it is used:
+        is_chain(d, h, len(middlewares))  <=>  h is d._handle_request
+        is_chain(d, p, j), j < len        <=>  p = partial(middlewares[j], handler=h') and is_chain(d, h', j + 1)"""
+    if j == len(d._middlewares):
+        define(uf('is_chain', d, p, j) == same(p, bound_method(d, '_handle_request')))
+    else:
+        define(implies(wraps(d, p, j), uf('is_chain', d, p, j)))
+    return True
+
+
+@contract('pjrpc.server.dispatcher:Dispatcher.__init__', also=('pjrpc.server.dispatcher:AsyncDispatcher.__init__',),
+          props=['C12'])
+class DispatcherInit:
+    """C12 (declared order): the constructor builds the request handler as
+    partial(m[0], handler=partial(m[1], handler=... partial(m[n-1], handler=self._handle_request))): the FIRST declared
+    middleware is the outermost one, every middleware occurs exactly once, the innermost handler is _handle_request."""
+    types = {'self': 'pjrpc.server.dispatcher:BaseDispatcher', 'middlewares': 'seq[=UserMiddleware]',
+             'error_handlers': '=dict'}
+    raises_only = ()
+    frame_unchecked = True
+    cross_check = False
+    loop0 = {'modifies': ['self._request_handler'], 'index': 'k'}
+
+    def invariant0_chain(self, xs, k):
+        n = len(self._middlewares)
+        return (len(xs) == n and chain_def(self, self._request_handler, n - k)
+                and uf('is_chain', self, self._request_handler, n - k))
+
+    def ensures_chain(self, result):
+        return chain_def(self, self._request_handler, 0) and uf('is_chain', self, self._request_handler, 0)
